@@ -507,6 +507,15 @@ func (c *Cluster) Failover(r *Node) {
 	old.MasterOf = r
 }
 
+// Reparent makes replica r replicate newMaster (CLUSTER REPLICATE).
+func (c *Cluster) Reparent(r, newMaster *Node) {
+	if r.MasterOf == nil {
+		return
+	}
+	r.MasterOf = newMaster
+	r.store = newMaster.store
+}
+
 // Redirects counts redirect replies logged since index from.
 func (c *Cluster) Redirects(from int) int {
 	k := 0
